@@ -61,7 +61,10 @@ fn load_project(pr: &Proj, dir: &str) -> Project {
     for f in &pr.files {
         let (bytes, exact) = latin1_bytes(&f.text);
         std::fs::write(format!("{dir}/{}", f.name), bytes).unwrap();
-        libs.entry(f.lib.clone()).or_default().push(f.name.clone());
+        // `lib` may name several libraries (`liba+libb`): the same file mapped to each of them
+        for l in f.lib.split('+') {
+            libs.entry(l.to_string()).or_default().push(f.name.clone());
+        }
         if !exact {
             inline.push(f);
         }
@@ -320,6 +323,7 @@ fn process(pr: &Proj, idx: usize, outdir: &str, opts: &Opts, rng: &mut Rng) -> O
     // clauses 2 and 3
     let mut n_ref_positions = 0usize;
     let mut n_inside_cursors = 0usize;
+    let mut n_homonym = 0usize;
     let mut extra_cursors: Vec<(u32, u32, u32)> = vec![];
     for (id, d) in qents.iter() {
         let refs = &refs_cache[id];
@@ -373,21 +377,34 @@ fn process(pr: &Proj, idx: usize, outdir: &str, opts: &Opts, rng: &mut Rng) -> O
                     iac_cache.insert(key, r2);
                     extra_cursors.push(key);
                 }
+                let mut homonym = false;
                 let bad = match &iac_cache[&key] {
                     None => Some("no entity".to_string()),
                     Some((_, e2)) => {
                         if counterpart(d, e2) {
                             None
                         } else {
+                            // the copy of the same declaration in another library (file mapped to several libraries)?
+                            for a in [*d, decl_of(d)] {
+                                for b in [*e2, decl_of(e2)] {
+                                    if a.id() != b.id() && a.decl_pos().is_some() && a.decl_pos() == b.decl_pos() {
+                                        homonym = true;
+                                    }
+                                }
+                            }
                             Some(e2.describe())
                         }
                     }
                 };
                 if let Some(b) = bad {
                     nv[1] += 1;
-                    if viol.len() < 6 {
+                    let nlibs = p.library_mapping_of(&srcs[&rf]).len();
+                    if homonym && nlibs >= 2 {
+                        n_homonym += 1;
+                    }
+                    if viol.len() < 6 || (viol.len() < 12 && !(homonym && nlibs >= 2)) {
                         viol.push(serde_json::json!({"clause": 2, "file": fname(rf, &files), "pos": [sp.0, sp.1, sp.2, sp.3], "cursor": [sp.0, c],
-                            "entity": d.describe(), "cursor_resolves_to": b,
+                            "entity": d.describe(), "cursor_resolves_to": b, "file_libraries": nlibs, "homonym_copy": homonym,
                             "text": "a cursor strictly inside a position returned by find_all_references(entity) does not resolve to the entity or its definition/instance counterpart"}));
                     }
                 }
@@ -522,7 +539,8 @@ fn process(pr: &Proj, idx: usize, outdir: &str, opts: &Opts, rng: &mut Rng) -> O
         "events": fo.evs.len(), "with_guards": with_guards, "ref_guards": ref_guards, "unresolved_refs": unresolved, "extraction_runs": fo.runs, "extraction_fallback": fo.fallback,
         "cursors": cursors.len(), "all_cursors": all_cursors, "cursor_hits": n_hit_cursors, "distinct_hits": hits.len(),
         "entities_queried": qents.len(), "reference_positions": n_ref_positions, "inside_cursors": n_inside_cursors,
-        "violations": {"clause1": nv[0], "clause2": nv[1], "clause3": nv[2]}, "violation_samples": viol,
+        "violations": {"clause1": nv[0], "clause2": nv[1], "clause3": nv[2]}, "clause2_homonym_copies": n_homonym,
+        "multi_library_files": rec_sorted.iter().filter(|f| srcs.get(f).map(|s| p.library_mapping_of(s).len() >= 2).unwrap_or(false)).count(), "violation_samples": viol,
         "unknown_entities": unknown_ents, "extraction_gap": gap, "rust_wf": wf, "decl_kinds": dkinds, "end_identifiers": end_idents,
     });
     Out { idx, cases, imp, oracle }
